@@ -537,7 +537,8 @@ KH_EVENTS = ['address', 'address_uncompressed', 'hash160', 'fingerprint', 'wif',
              'public', 'public_hex', 'public_uncompressed_hex', 'as_dict', 'child_private_1', 'child_public_1',
              'subkey_m_0h', 'address_obj', 'info_str']
 KH_DERIVE = ['child_private_2', 'child_private_hard', 'child_public_2', 'path_1_2', 'public_then_child_public_3',
-             'path_M_1']
+             'path_M_1', 'child_public_2_network', 'child_private_2_network', 'child_private_hard_network', 'path_M_1_2_network',
+             'path_1_2_network']
 
 
 def _kh_event(k, ev):
@@ -614,6 +615,25 @@ def sub_khist(case):
                 got, r = k.child_private(3, hardened=True), bip32.ckd_priv(ref, 3 + HARD)
             elif dv == 'child_public_2':
                 got, r, want_priv = k.child_public(2), bip32.ckd_pub(ref.neuter(), 2), False
+            elif dv == 'child_public_2_network':
+                # the documented network argument, spelled out with the key's own network
+                got, r, want_priv = k.child_public(2, network='bitcoin'), bip32.ckd_pub(ref.neuter(), 2), False
+            elif dv == 'child_private_2_network':
+                if not private:
+                    continue
+                got, r = k.child_private(2, network='bitcoin'), bip32.ckd_priv(ref, 2)
+            elif dv == 'child_private_hard_network':
+                if not private:
+                    continue
+                got, r = k.child_private(3, hardened=True, network='bitcoin'), bip32.ckd_priv(ref, 3 + HARD)
+            elif dv == 'path_M_1_2_network':
+                if not private or ref.depth != 0:
+                    continue
+                got, r, want_priv = (k.subkey_for_path('M/1/2', network='bitcoin'),
+                                     bip32.ckd_pub(bip32.ckd_pub(ref.neuter(), 1), 2), False)
+            elif dv == 'path_1_2_network':
+                got = k.subkey_for_path('1/2', network='bitcoin')
+                r = bip32.derive(ref, [1, 2]) if private else bip32.ckd_pub(bip32.ckd_pub(ref.neuter(), 1), 2)
             elif dv == 'path_1_2':
                 got = k.subkey_for_path('1/2')
                 r = bip32.derive(ref, [1, 2]) if private else bip32.ckd_pub(bip32.ckd_pub(ref.neuter(), 1), 2)
